@@ -3,6 +3,7 @@ package core
 import (
 	"errors"
 	"fmt"
+	"sort"
 	"strings"
 
 	schema "github.com/jsightapi/jsight-schema-core"
@@ -281,10 +282,11 @@ func (*JApiCore) getPropertiesNames(m map[string]ischema.Node) string {
 		return ""
 	}
 
-	buf := strings.Builder{}
+	// The names have to be sorted, the order of map iteration is random.
+	names := make([]string, 0, len(m))
 	for k := range m {
-		buf.WriteString(k)
-		buf.WriteString(", ")
+		names = append(names, k)
 	}
-	return strings.TrimSuffix(buf.String(), ", ")
+	sort.Strings(names)
+	return strings.Join(names, ", ")
 }
